@@ -2,6 +2,8 @@
 """rect_translator_demo.py — re-runs the demonstration of the SOURCE TRANSLATOR tie for `Rectangle` (tools/tr_rect.py).
 
     python3 tools/tests/rect_translator_demo.py            # all cases, exit 0 iff every case behaves as recorded
+    python3 tools/tests/rect_translator_demo.py --seeds    # instead: every seeded change under seeded/ that touches a
+                                                           # translated file (patch.diff), expected to break a theorem
 
 For each case a small edit is applied to the Rust text of a SCRATCH COPY of /repo (a detached git worktree,
 removed at the end; /repo itself is never touched), the translator regenerates `RectSrc.lean` from it, and the
@@ -118,6 +120,10 @@ CASES = [
      "        let x = rectangle.columns();\n        let y = rectangle.rows();\n",
      "        let y = rectangle.rows();\n        let x = rectangle.columns();\n",
      []),
+    ("Points: an override of `Iterator::size_hint` added (no translated body changes)", "mutation", POINTS,
+     "        None\n    }\n}\n",
+     "        None\n    }\n\n    fn size_hint(&self) -> (usize, Option<usize>) {\n        (0, None)\n    }\n}\n",
+     ["untranslated_pinned"]),
     ("center: a `for` loop (outside the Rust subset)", "unknown", RECT,
      "        self.top_left + center_offset(self.size)\n",
      "        for _k in 0..1 {}\n        self.top_left + center_offset(self.size)\n",
@@ -143,8 +149,25 @@ def list_theorems(path):
     return out
 
 
+def seed_cases():
+    out = []
+    sd = os.path.join(V, "seeded")
+    for d in sorted(os.listdir(sd)):
+        pf = os.path.join(sd, d, "patch.diff")
+        if not os.path.exists(pf):
+            continue
+        txt = open(pf).read()
+        if any(("+++ b/" + rel) in txt for rel in tr_rect.FILES.values()):
+            out.append((f"seeded change {d}", "seed", pf, None, None, []))
+    return out
+
+
 def main():
     only = sys.argv[1:]
+    cases = CASES
+    if only and only[0] == "--seeds":
+        only = only[1:]
+        cases = seed_cases()
     rc, out = run(["lake", "build", "EG.Props.C16.Generated", "EG.Props.C16.GeneratedPoints"], cwd=LEAN)
     if rc != 0:
         print("the unchanged tree does not build EG.Props.C16.Generated:\n" + out[-2000:])
@@ -165,17 +188,24 @@ def main():
         files, info = tr_rect.generate(scratch)
         cur = open(os.path.join(LEAN, "EG", "Generated", "RectSrc.lean")).read()
         print(f"baseline: {info.get('functions')} functions translated; identical to lean/EG/Generated/RectSrc.lean: {files['RectSrc.lean'] == cur}")
-        for idx, (name, kind, rel, old, new, expect) in enumerate(CASES):
+        for idx, (name, kind, rel, old, new, expect) in enumerate(cases):
             if only and not any(o in name for o in only):
                 continue
             run(["git", "-C", scratch, "checkout", "-q", "--", "."])
-            path = os.path.join(scratch, rel)
-            src = open(path).read()
-            if src.count(old) != 1:
-                print(f"[{kind}] {name}: CANNOT APPLY (the text to replace occurs {src.count(old)} times): demo out of date")
-                bad += 1
-                continue
-            open(path, "w").write(src.replace(old, new))
+            if kind == "seed":
+                rca, outa = run(["git", "-C", scratch, "apply", rel])
+                if rca != 0:
+                    print(f"[{kind}] {name}: CANNOT APPLY the patch to /repo's HEAD ({outa.strip()[:120]})")
+                    bad += 1
+                    continue
+            else:
+                path = os.path.join(scratch, rel)
+                src = open(path).read()
+                if src.count(old) != 1:
+                    print(f"[{kind}] {name}: CANNOT APPLY (the text to replace occurs {src.count(old)} times): demo out of date")
+                    bad += 1
+                    continue
+                open(path, "w").write(src.replace(old, new))
             files, info = tr_rect.generate(scratch)
             gen_dir = os.path.join(tmp, f"case{idx}")
             os.makedirs(os.path.join(gen_dir, "src", "EG", "Generated"))
@@ -210,6 +240,8 @@ def main():
                         broken.add(nm or f"{os.path.basename(pf)} line {ln}")
             if kind == "mutation":
                 ok = (not failed) and all(e in broken for e in expect)
+            elif kind == "seed":
+                ok = len(broken) > 0        # caught: a theorem broke (or the translator refused, which breaks all)
             elif kind == "harmless":
                 ok = (not failed) and not broken
             else:
